@@ -463,7 +463,7 @@ Qed.
 Lemma imageBoxFetchChain_valid first targets u :
   In u (imageBoxFetchChain first targets) -> validateImageBoxRemoteURL u = true.
 Proof.
-  unfold imageBoxFetchChain. destruct (imageBoxRemoteURL (Some first)) as [[|] [|]] eqn:E; try (intros []).
+  unfold imageBoxFetchChain. destruct (imageBoxRemoteURL (Some first)) as [[|] [|]] eqn:E; try (intros F; solve [destruct F]).
   intros [<-|H]; [|apply (imageBoxFollow_valid _ _ H)].
   destruct (imageBoxRemoteURL_sound _ E) as (p & Ep & _ & V). injection Ep as <-. exact V.
 Qed.
